@@ -295,3 +295,35 @@ hp!(u12_mania_perf_n2, 2);
 //@ bound: bounded: 3 objects; calculator position, the nth argument, the score state (all u32 fields) and the caller's Difficulty (mods bits, passed_objects, lazer symbolic; clock rate unset or 1.5) symbolic; ManiaPerformance::calculate replaced by a recording stub
 //@ clause: C15 (e): nth(state, n) processes min(n+1, remaining) objects, last processes all remaining, next one; None exactly when nothing remains. C03: the performance builder that gets calculated equals Performance(attributes after i objects).difficulty(D).passed_objects(i).state(S) field for field, i = objects consumed so far
 hp!(u12_mania_perf_n3, 3);
+
+// ---- base case component: the difficulty-object array built by `create_difficulty_objects` -------------------------
+fn base_case(n: usize) {
+    let mut objs: Vec<ManiaObject> = Vec::with_capacity(4);
+    let mut i = 0;
+    while i < n {
+        let t = 500.0 * i as f64;
+        objs.push(ManiaObject { start_time: t, end_time: t, column: i % 4 });
+        i += 1;
+    }
+    let d = DifficultyValues::create_difficulty_objects(1.0, objs.into_iter());
+    assert!(d.len() + 1 == if n == 0 { 1 } else { n }, "C02 one difficulty object per hit object after the first");
+    let mut j = 0;
+    while j < d.len() {
+        assert!(d[j].idx == j, "C02 difficulty objects are indexed in object order");
+        j += 1;
+    }
+    std::mem::forget(d);
+}
+
+//@ obl: id=U12.mania.base_case harness=u12_mania_base_case props=C02,C15 tier=quick kind=bounded
+//@ fns: mania DifficultyValues::create_difficulty_objects
+//@ bound: bounded: 0, 1, 2 and 3 hit objects
+//@ clause: part of the invariant's base case: create_difficulty_objects returns max(N,1)-1 difficulty objects, the j-th with idx == j
+#[kani::proof]
+#[kani::unwind(6)]
+fn u12_mania_base_case() {
+    base_case(0);
+    base_case(1);
+    base_case(2);
+    base_case(3);
+}
